@@ -48,5 +48,5 @@ def run(ctx, prop):
         "byte streams come from a structured mutation grammar over valid sessions plus seeded random fuzz, not all byte streams",
         "declared upload sizes are capped at 1 MiB (the property's quantifier)",
         "the server runs in a child process on loopback; distinct source addresses are 127.x.y.z",
-        "'back to baseline' is awaited with bounded patience (120 s) after the last hostile connection is closed",
+        "'back to baseline' is awaited after the last hostile connection is closed for as long as the registry keeps shrinking (no progress for 45 s = leak)",
     ]
